@@ -2,13 +2,31 @@
 
 package db
 
-import "github.com/dgraph-io/badger/v3"
+import (
+	"reflect"
+	"unsafe"
+
+	"github.com/dgraph-io/badger/v3"
+)
+
+// verifBadger finds the store's *badger.DB by its TYPE, not by the name of the field that holds it, so that renaming the
+// field does not break the harnesses.
+func (d *Database) verifBadger() *badger.DB {
+	v := reflect.ValueOf(d).Elem()
+	want := reflect.TypeOf((*badger.DB)(nil))
+	for i := 0; i < v.NumField(); i++ {
+		if f := v.Field(i); f.Type() == want {
+			return (*badger.DB)(unsafe.Pointer(f.Pointer()))
+		}
+	}
+	panic("verif: Database holds no *badger.DB field")
+}
 
 // VerifRawGet reads one key straight from badger, bypassing GetSignedVAABytes (and whatever a change may have put in front
 // of it: caches, pooled buffers). Used by the processor harness so that its view of the store does not depend on the code
 // under test more than it has to. found=false: the key is not there.
 func (d *Database) VerifRawGet(key []byte) (val []byte, found bool, err error) {
-	err = d.db.View(func(txn *badger.Txn) error {
+	err = d.verifBadger().View(func(txn *badger.Txn) error {
 		item, e := txn.Get(key)
 		if e == badger.ErrKeyNotFound {
 			return nil
